@@ -14,7 +14,7 @@ func init() {
 		ID: "C19",
 		Explanation: "Decides structural necessary conditions of C19: (R-C19-1) after publication the only removal from the active set is the one in the apply phase of a poll, edge-dominated by 'the update is the nil marker' and by the no-handle edge; the nil marker is recorded only in the poll on a branch that depends on the snapshot's expired flag, and every value stored into that flag depends on the expiry predicate; " +
 			"(R-C19-6) after construction whole entries are installed only by the lookup of a new name (polls update in place, so the Declared flag survives); (R-C19-2) the expiry predicate can answer other than false only under !Declared and expiryAge > 0, and then answers exactly now.Sub(lastAccess) > expiryAge with the store's clock, the entry's own last-access time and the configured age; (R-C19-3) every handle read stores timeNow().Unix() into the LastAccess of the entry it returns, under the lock, on every path; " +
-			"(R-C19-4) lastAccess is persisted in the cache document and Declared is not; a zero stamp reads as the zero time; (R-C19-5) Declared is set only before publication, for names of the configured list or for entries stubbed from it; entries created by lookups leave it unset; (R-C19-8) nothing is ever deleted from the handle map or the watcher lists.",
+			"(R-C19-4) lastAccess is persisted in the cache document and Declared is not; a zero stamp reads as the zero time; (R-C19-5) Declared is set only before publication, for names of the configured list or for entries stubbed from it; entries created by lookups leave it unset; (R-C19-8) nothing is ever deleted from the handle map or the watcher lists. (R-C19-7, extended) the cache is never written while nil stubs are in the set (C13's R-C13-1: such a cache is rejected as a whole at the next start, dropping every cached undeclared secret).",
 		NotDecided:  "Clock arithmetic over histories and restarts; which polls happen when.",
 		Trusted:     commonTrusted,
 		Assumptions: []string{"time.Time.Sub and time.Unix behave as documented"},
